@@ -57,7 +57,7 @@ def gen_step(rng, i, ops=OPS, big=False, maxdata=None, fails=False, dirs=False, 
                 "split": rng.choice(["whole", "random", "random", "blocks", "bytes1" if size <= 300 else "random"]),
                 "dest": rng.choice(["bytesio", "bytesio", "path"]), "cb": rng.choice([None, None, "ok", "raise", "raisebase"])} if not (fails and rng.random() < 0.2) else \
                {"op": op, "path": "/pull%d" % i, "size": rng.choice([5000, 70000, 200000]), "seed": sd, "rec": rng.choice(["one", "random"]), "split": rng.choice(["random", "blocks"]),
-                "dest": "failing", "fail_after": rng.choice([0, 1, 2]), "cb": None}
+                "dest": rng.choice(["failing", "failing", "missingdir", "isdir"]), "fail_after": rng.choice([0, 1, 2]), "cb": None}
     if op == "push":
         size = rng.choice([0, 1, 100, 2047, 2048, 2049, 4087, 4088, 4089, 10000, 70000] + ([300000] if big else []))
         st = {"op": op, "path": "/push%d" % i, "size": size, "seed": sd, "src": rng.choice(["bytesio", "bytesio", "file"]),
@@ -328,7 +328,10 @@ class Runner(object):
             plan.split_mode = step["split"]
         cb_calls = []
         cb = make_callback(self.sess.impl, step.get("cb"), cb_calls)
-        if step.get("dest") == "failing":
+        if step.get("dest") in ("missingdir", "isdir"):
+            # a destination that cannot be opened for writing: the call fails with the local error; whether anything is sent first is the twins' business (C16)
+            dest = os.path.join(self.tmpdir(), "no-such-dir-%d" % i, "f") if step["dest"] == "missingdir" else self.tmpdir()
+        elif step.get("dest") == "failing":
             dest = FailingIO(step.get("fail_after", 1))
         elif step.get("dest") == "path":
             dest = os.path.join(self.tmpdir(), "pulled%d" % i)
@@ -343,6 +346,10 @@ class Runner(object):
         content, dest, cb, cb_calls = ctx
         if step.get("dies"):
             return self._judge_dies(step, out)
+        if step.get("dest") in ("missingdir", "isdir"):
+            if out.ok:
+                return [self._v("C08", "local-open-error-swallowed", "pull(%s) into %r returned normally" % (step["path"], dest))]
+            return [] if isinstance(out.exc, OSError) else self._raised("C08", step, out)
         if isinstance(dest, FailingIO):
             # the local write failed: the call must raise that error (a short file as success would be wrong), nothing else is demanded here
             if out.ok and dest.failed:
